@@ -250,7 +250,7 @@ def integer_truncation(s):
 def fee_boundaries(s):
     """C06 / C17: amounts around multiples of 200, both fee denominations."""
     lid = 0
-    for amt in [1, 199, 200, 201, 399, 400, 9999, 10001]:
+    for amt in [1, 199, 200, 201, 399, 400, 1800, 9999, 10001, 19999 * 200]:       # fees 0 0 1 1 1 2 9 49 50 19999 (a leading 9, an all-9 tail)
         for d in ["ujunox", "uusdcx"]:
             lid += 1
             listing(s, "usr0", lid, [[d, amt], ["uatom", amt]], G(n=[[d, amt]]))
@@ -265,8 +265,8 @@ def fee_boundaries(s):
             bucket(s, "usr3", lid, [["uosmo", 1], [d, amt]])
             buy(s, "usr3", lid, lid)
     for i in range(1, lid + 1):
-        s.do(E("usr0" if i <= 16 else "usr2", {"k": "remove_bucket", "id": i}), "valid")
-        s.do(E("usr1" if i <= 16 else "usr3", {"k": "withdraw_purchased", "id": i}), "valid")
+        s.do(E("usr0" if i <= 20 else "usr2", {"k": "remove_bucket", "id": i}), "valid")
+        s.do(E("usr1" if i <= 20 else "usr3", {"k": "withdraw_purchased", "id": i}), "valid")
 
 
 def royalties_both_sides(s):
@@ -373,6 +373,19 @@ def expiry_edges(s):
     s.do(E("usr0", {"k": "remove_bucket", "id": 1}), "valid")            # twice: refused
 
 
+def market_order(s):
+    """C16: the market query follows the index (finalisation second, owner, id), not the order of creation: listings
+    finalized within one block by owners and with ids in descending order (found by tools/modelmut.py)."""
+    ask = G(n=[["uosmo", 7]])
+    for u, lid in (("usr1", 8), ("usr3", 9), ("usr0", 7), ("usr1", 3), ("usr2", 1), ("usr0", 4), ("usr3", 10)):
+        listing(s, u, lid, [["uatom", 5]], ask, secs=3600)
+    s.query_here()
+    adv(s, 1, 0)
+    for u, lid in (("usr0", 5), ("usr2", 6), ("usr0", 2), ("usr1", 11)):
+        listing(s, u, lid, [["uatom", 5]], ask, secs=3600)
+    s.query_here()
+
+
 def long_lived_listings(s):
     """C16: the market / whitelist queries late in a near-maximum lifetime (the index window must span the
     longest lifetime a listing can be finalized with); the query battery runs at the end of the script."""
@@ -405,6 +418,13 @@ def competing_buyers(s):
     bucket(s, "usr3", 3, [["uosmo", 7]])
     cw20_send(s, "usr3", CW20A, 3, {"k": "add_to_bucket_cw20", "id": 3})
     buy(s, "usr3", 2, 3)
+    # the stranger's address sorts *after* the reserved buyer's this time (found by tools/modelmut.py: a whitelist test
+    # weakened to an ordering went unnoticed while every stranger sorted before the buyer)
+    listing(s, "usr0", 5, [["uatom", 5]], G(n=[["uosmo", 7]]), secs=3600, wl="usr1")
+    bucket(s, "usr2", 5, [["uosmo", 7]])
+    bucket(s, "usr1", 6, [["uosmo", 7]])
+    buy(s, "usr2", 5, 5)        # refused
+    buy(s, "usr1", 5, 6)
     # self purchase
     listing(s, "usr4", 4, [["ujunox", 1000]], G(n=[["ujunox", 1000]]), secs=600)
     bucket(s, "usr4", 4, [["ujunox", 1000]])
@@ -527,6 +547,8 @@ def registry_rules(s):
         reg(s, COLL1, bps)
     reg(s, COLL1, 10, sender="usr1")                 # not the admin
     reg(s, COLL3, 100)                               # contract without admin
+    s.do({"t": "set_admin", "contract": COLL3, "admin": "usr5"}, "valid")      # ... which nobody can give one (refused)
+    s.do({"t": "set_admin", "contract": "usr3", "admin": "usr5"}, "valid")     # not a contract (refused)
     reg(s, "usr3", 100)                              # not a contract
     reg(s, COLL1, 10, payout="x")
     reg(s, COLL1, 10)
@@ -569,6 +591,7 @@ def malformed_deposits(s):
         s.do(E("usr0", {"k": "create_bucket", "id": 1}, funds), "malformed")
     for a in (G(), G(n=[["uatom", 0]]), G(n=[["uatom", 1], ["uosmo", 2], ["uatom", 1]]), G(c=[[CW20A, 0]]), G(c=[[CW20A, 1], [CW20B, 2], [CW20A, 3]]),
               G(f=[[COLL1, "1"], [COLL1, "1"]]), G(c=[["x", 1]]), G(f=[["USR0", "1"]]),
+              G(n=[["uatom", 2 ** 128]]), G(c=[[CW20A, 2 ** 128]]), G(n=[["uatom", 2 ** 128 - 1]], c=[[CW20A, 2 ** 128]]),
               G(n=[["d%02d" % i, 1] for i in range(26)]), G(n=[["d%02d" % i, 1] for i in range(24)], c=[[CW20A, 1]], f=[[COLL1, "1"]])):
         s.do(E("usr0", {"k": "create_listing", "id": 1, "ask": a, "wl": None}, [["uatom", 5]]), "malformed")
     s.do(E("usr0", {"k": "create_listing", "id": 1, "ask": G(n=[["d%02d" % i, 1] for i in range(23)], c=[[CW20A, 1]], f=[[COLL1, "1"]]), "wl": None}, [["uatom", 5]]), "valid")
@@ -939,6 +962,7 @@ SCRIPTS = {
     "reentrant_royalty": (world.default_cfg, reentrant_royalty, ("reentrant",)),
     "reentrant_in_flight": (world.default_cfg, reentrant_in_flight, ("reentrant",)),
     "long_lived_listings": (world.default_cfg, long_lived_listings, ()),
+    "market_order": (world.default_cfg, market_order, ()),
     "big_amounts": (big_amounts_cfg, big_amounts, ()),
     "queries_pages": (queries_pages_cfg, queries_pages, ("all_pages",)),
     "queries_many_records": (queries_many_records_cfg, queries_many_records, ("all_pages", "no_drain")),
